@@ -25,9 +25,10 @@ def run(ctx):
         add("plain", fam="ringrect", n=120 if q else 700, emb="0", cfg="lite" if k % 2 else "full", seed=s * 100 + 80 + k)
     for k in range(8 if q else 32):   # unions of 5-8 mixed-orientation rectangles on even coordinates: rings split, absorbed and re-split by horizontal joins
         add("plain", fam="rects", n=800 if q else 2500, grid=8, kmin=5, kmax=8, subjonly=1, mul=2, emb="0", cfg="lite", cts="2", frs="0,1", seed=s * 100 + 90 + k)
-    for k in range(8 if q else 16):   # "loose": arbitrary random polygons (no input certificate, crossings a fraction of a unit apart: contours that pinch after
-        # rounding and are split while the tree is built); only the tree's own consistency is judged, and only when the output rings are simple and apart
-        add("plain", fam="gps", gpt=0, n=700 if q else 1500, emb="0", npts=8, cfg="lite", cts="1,2,3,4", frs="0,1", seed=s * 1000 + 500 + k,
+    for k in range(8 if q else 16):   # "loose": arbitrary random polygons (no input certificate, crossings a fraction of a unit apart); the harness keeps only the
+        # inputs for which some tree execution splits a self-intersecting output ring (hook H4 split_fn as a search director: about 1 input in 10);
+        # only the tree's own consistency is judged, and only when TLC finds the output rings simple and apart
+        add("plain", fam="gps", gpt=0, needsplit=1, n=12000 if q else 24000, emb="0", npts=8, cfg="lite", cts="1,2,3,4", frs="0,1", seed=s * 1000 + 500 + k,
             R=[200, 1000, 400][k % 3], maxpaths=1 + k % 3, maxv=6 + 2 * (k % 4))
     if not q:
         for k in range(8):
